@@ -219,6 +219,20 @@ theorem vmu_configurations_from_source :
                                   post := (Vmu.tick c.buf (Vmu.send c c.burst s).lanes (Vmu.send c c.burst s).post).2 }) :=
   ⟨by decide, by decide, by decide, by decide, by decide, by decide, fun _ _ => rfl⟩
 
+/-- **Who may issue.** The arbiter model's constants are the source's: `ExeUnitSpecial` is unit
+    type 6 (the last of the 7 entries of the type mask), `WfReady` is state 1, the decode units
+    accept 4 wavefronts, the branch unit one. -/
+theorem arbiter_constants_from_source :
+    exeUnitNames[6]? = some "ExeUnitSpecial" ∧ exeUnitNames.length = typeMaskLen ∧
+    wfStateNames[1]? = some "WfReady" ∧
+    (∀ u, Arb.unitCap u = if u = 3 then branchUnitCap else decodeUnitCap) ∧
+    exeUnitNames[3]? = some "ExeUnitBranch" ∧
+    (∀ w : Arb.AWf, Arb.eligible w = (w.state == code .ready && w.hasInst && !w.hazard)) := by
+  refine ⟨by decide, by decide, by decide, ?_, by decide, fun _ => rfl⟩
+  intro u
+  unfold Arb.unitCap
+  split <;> rfl
+
 /-- the audited sources of the hand-transcribed functions -/
 def auditedFuncs : List (String × String × String) := [
   ("amd/timing/cu/scheduler.go", "SchedulerImpl.Run", "5828805e59205f9d"),
@@ -274,6 +288,14 @@ def auditedFuncs : List (String × String × String) := [
   ("amd/timing/cu/vectormemoryunit.go", "VectorMemoryUnit.executeFlatStore", "f5c6a23b598e601d"),
   ("amd/timing/cu/vectormemoryunit.go", "VectorMemoryUnit.sendRequest", "abedfff17c9cb257"),
   ("amd/timing/cu/vectormemoryunit.go", "VectorMemoryUnit.Flush", "258c99a10c031999"),
+  ("amd/timing/cu/issuearbiter.go", "IssueArbiter.Arbitrate", "ced3994b7fa48de1"),
+  ("amd/timing/cu/issuearbiter.go", "IssueArbiter.isAllWfPoolsEmpty", "3e4d850c398947c8"),
+  ("amd/timing/cu/scheduler.go", "SchedulerImpl.DoIssue", "31e1408965ab1e10"),
+  ("amd/timing/cu/scheduler.go", "SchedulerImpl.getUnitToIssueTo", "f3dc11ba61875256"),
+  ("amd/timing/cu/decodeunit.go", "DecodeUnit.CanAcceptWave", "dc432ce4bc04d880"),
+  ("amd/timing/cu/decodeunit.go", "DecodeUnit.AcceptWave", "25177d5854296f2c"),
+  ("amd/timing/cu/branchunit.go", "BranchUnit.CanAcceptWave", "7de6ef24cb08cf69"),
+  ("amd/timing/cu/branchunit.go", "BranchUnit.AcceptWave", "4f25ece48bf570b2"),
   ("akita/pipelining/pipeline.go", "pipelineImpl.Clear", "d311a0e343aa8e2a"),
   ("akita/pipelining/pipeline.go", "pipelineImpl.Tick", "e5a6b9e4c8b58d73"),
   ("akita/pipelining/pipeline.go", "pipelineImpl.tryMoveToPostPipelineBuffer", "c9672880c4bfed18"),
